@@ -162,12 +162,28 @@ def c16_long_path(n_prefix, k):
     return path
 
 
+def c16_long_suffix_path(k, n_readouts, size, chunk, offset):
+    """k free noise octets, then many readouts fed in chunks that never fall on a readout boundary: all but the first must arrive"""
+    def path(eng, ctx):
+        from checks.c05 import make_readout
+        noise = [sym_octet(f"n{i}") for i in range(k)]
+        rs = [make_readout(i, size) for i in range(n_readouts)]
+        stream = SBytes(noise + [c for r in rs for c in r])
+        n = len(stream)
+        cuts = tuple(range(offset, n, chunk))
+        expect_delivery(eng, ctx, stream, rs[1:], [cuts], f"p1 noise k={k} + {n_readouts} readouts of {size} in chunks of {chunk}", exact=False)
+    return path
+
+
 def c16_scenarios(tier):
     q = tier == "quick"
     k = 3 if q else 5
     long_ = [Scenario(f"p1 unfinished readout of ~{n} octets, then one chunk with {2} free octets + 3 readouts", c16_long_path(n, 2),
                       bounds={"prefix_octets": n, "then": "one chunk: 2 free octets + 3 clean readouts (~300 octets each)", "claim": "readouts 2 and 3 delivered"}, domains=("p1",), frontier=3, workers=4,
                       assumptions=inject.assumptions(("p1",)), replay_cap=20) for n in ((7900, 8300) if q else (4000, 7900, 8100, 8191, 8300, 12000))]
+    long_.append(Scenario("p1 2 free noise octets + 120 readouts of 104 octets in 104-octet chunks from offset 20", c16_long_suffix_path(2, 120, 104, 104, 20),
+                          bounds={"noise": "2 free octets", "suffix": "120 readouts (12 KiB), chunk boundaries never on a readout boundary", "claim": "every readout except possibly the first is delivered"},
+                          domains=("p1",), frontier=3, workers=4, assumptions=inject.assumptions(("p1",)), replay_cap=10))
     return long_ + [Scenario(f"p1 free noise k={k} (+readout-looking prefixes) + 3 readouts", c16_noise_path(k),
                      bounds={"noise": f"{k} free octets alone | after a truncated readout | before '/ABC'", "suffix": "3 spec readouts (one free digit)", "splittings": "one call, every cut around the noise/readout boundary"},
                      domains=("p1",), frontier=4, assumptions=inject.assumptions(("p1",)), replay_cap=60)]
